@@ -28,7 +28,17 @@ CONFIGS = [
 
 
 def run(check):
+    from concurrent.futures import ThreadPoolExecutor
     runs = []
-    for label, consts, inv in CONFIGS:
-        runs += usimrun.explore(check, None, [(label, consts)], invariants=inv, limit=15000 if check.tier == 'quick' else 250000)
+    lim = 15000 if check.tier == 'quick' else 250000
+
+    def one(cfg):       # the TLC runs of the configurations overlap
+        label, consts, inv = cfg
+        return consts, check.witnesses(label, consts, emit='EmitOps', coverage=check.tier == 'thorough', limit=lim,
+                                       invariants=list(inv) + (['NoStuck'] if check.tier == 'thorough' else []))
+    with ThreadPoolExecutor(3) as ex:
+        generated = list(ex.map(one, CONFIGS))
+    for consts, ws in generated:
+        runs += [(p, t, consts['NRoots']) for p, t in usimrun.replay(check, ws, consts, limit=lim)]
+    runs += usimrun.random_runs(check)     # random programs over the whole vocabulary
     usimrun.judge(check, OBS, runs)
